@@ -20,6 +20,15 @@ Theorem c01_forms : forall fr f c,
 Proof. exact forms_agree. Qed.
 Print Assumptions c01_forms.
 
+(* ... and under every option: with smearing (one more value) and with sub-sample integration (the mean of copies of c is c) *)
+Theorem c01_constant_function : forall fr o c,
+  (integrate_path o = false -> path_values fr o (CFun (fun _ => c)) = path_values fr o (CScal c)) /\
+  (integrate_t o = false -> t_values fr o (CFun (fun _ => c)) = t_values fr o (CScal c)) /\
+  ((0 < t_sub o)%nat -> exists l, path_values fr o (CFun (fun _ => c)) = Ok l /\ length l = teff fr o /\ forall i, (i < teff fr o)%nat -> (nth i l 0 == c)%Q) /\
+  ((0 < t_sub o)%nat -> exists l, t_values fr o (CFun (fun _ => c)) = Ok l /\ length l = T fr /\ forall i, (i < T fr)%nat -> (nth i l 0 == c)%Q).
+Proof. exact constant_function. Qed.
+Print Assumptions c01_constant_function.
+
 Theorem c01_smear_array_path : forall fr o l,
   path_values fr o (CArr l) = (if Nat.eqb (length l) (if smear o then S (T fr) else T fr) then Ok l else Err ValueError).
 Proof. exact smear_array_path. Qed.
